@@ -105,6 +105,14 @@ fn corruptions(kind: &str, cur: &Value) -> Vec<(String, Value)> {
             out.push(("non_ascii".into(), json!(format!("{}é", &s[..s.len().saturating_sub(1)]))));
             out.push(("hrp_only".into(), json!(d.map(|d| format!("{}1", d.hrp)).unwrap_or_default())));
             out.push(("space".into(), json!(format!(" {s}"))));
+            // checksum-valid address whose real prefix is "<prefix>1x": bech32 splits at the LAST '1'
+            if let Some(d) = bech::decode(&s) {
+                out.push(("prefix_with_separator".into(), json!(bech::encode(&format!("{}1x", d.hrp), &d.payload))));
+                out.push(("prefix_extended".into(), json!(bech::encode(&format!("{}x", d.hrp), &d.payload))));
+                // unusual but valid payload lengths
+                out.push(("payload_1_byte".into(), json!(bech::encode(&d.hrp, &d.payload[..1]))));
+                out.push(("payload_32_bytes".into(), json!(bech::addr(&d.hrp, "other-32", 32))));
+            }
         }
         "prefix" => {
             let s = cur.as_str().unwrap_or("").to_string();
@@ -183,6 +191,11 @@ fn corruptions(kind: &str, cur: &Value) -> Vec<(String, Value)> {
             out.push(("append_bad_checksum".into(), Value::Array(badsum)));
             out.push(("append_upper_twin".into(), Value::Array(up)));
             out.push(("append_empty".into(), Value::Array(empty_entry)));
+            if let Some(d) = bech::decode(&first) {
+                let mut sep = arr.clone();
+                sep.push(json!(bech::encode(&format!("{}1x", d.hrp), &bech::decode(&bech::addr(&d.hrp, "sep-entry", 20)).unwrap().payload)));
+                out.push(("append_prefix_with_separator".into(), Value::Array(sep)));
+            }
             out.push(("empty_list".into(), json!([])));
         }
         _ => {}
